@@ -250,16 +250,14 @@ def round_trip(P, plans, temporal, limit=30):
 
     W = {"wexc": "none", "wmsg": "", "dom": "", "prob": ""}
     try:
-        with time_limit(limit):
-            problem = upj.build(P)
+        problem = call_limited(lambda: upj.build(P), limit)
     except ImplTimeout:
         return {"skip": "build-timeout"}, []
     except Exception as ex:
         return {"skip": "build:" + _exc(ex), "detail": _msg(ex)}, []
     try:
-        with time_limit(limit):
-            w = PDDLWriter(problem)
-            W["dom"], W["prob"] = w.get_domain(), w.get_problem()
+        w = PDDLWriter(problem)
+        W["dom"], W["prob"] = call_limited(lambda: (w.get_domain(), w.get_problem()), limit)
     except ImplTimeout:
         W["wexc"] = "TIMEOUT"
         return W, []
@@ -296,13 +294,13 @@ def round_trip(P, plans, temporal, limit=30):
             # ---- plans --------------------------------------------------------------------
             if q is None or R["B"] is None:
                 continue
+            rd = PDDLReader(**kw)
             for (kind, steps) in plans:
                 pr = {"kind": kind, "steps": steps, "text": "", "wexc": "none", "back": [], "bkind": "", "bexc": "none",
                       "via": [], "vkind": "", "vexc": "none"}
                 try:
-                    with time_limit(limit):
-                        pl = timeobs.build_seq_plan(problem, steps) if kind == "seq" else timeobs.build_tt_plan(problem, steps)
-                        pr["text"] = w.get_plan(pl)
+                    pl = timeobs.build_seq_plan(problem, steps) if kind == "seq" else timeobs.build_tt_plan(problem, steps)
+                    pr["text"] = call_limited(lambda: w.get_plan(pl), limit)
                 except ImplTimeout:
                     pr["wexc"] = "TIMEOUT"
                 except Exception as ex:
@@ -310,8 +308,7 @@ def round_trip(P, plans, temporal, limit=30):
                 if pr["wexc"] == "none":
                     # (a) against the re-read problem, by PDDL names
                     try:
-                        with time_limit(limit):
-                            bp = PDDLReader(**kw).parse_plan_string(q, pr["text"])
+                        bp = call_limited(lambda: rd.parse_plan_string(q, pr["text"]), limit)
                         pr["bkind"], bsteps = _steps_of_plan(bp)
                         pr["back"] = rename_steps(bsteps, BackRenamer(w))
                     except ImplTimeout:
@@ -320,8 +317,7 @@ def round_trip(P, plans, temporal, limit=30):
                         pr["bexc"] = _exc(ex)
                     # (b) against the original problem, through the writer's look-up
                     try:
-                        with time_limit(limit):
-                            vp = PDDLReader(**kw).parse_plan_string(problem, pr["text"], w.get_item_named)
+                        vp = call_limited(lambda: rd.parse_plan_string(problem, pr["text"], w.get_item_named), limit)
                         pr["vkind"], pr["via"] = _steps_of_plan(vp)
                     except ImplTimeout:
                         pr["vexc"] = "TIMEOUT"
@@ -442,8 +438,25 @@ def _idents(P):
     return out
 
 
-def features(P):
-    """deterministic syntactic features of the input (known-finding signatures are keyed on them)"""
+def _flat(e, op):
+    out = []
+    for a in e["args"]:
+        out += _flat(a, op) if a["op"] == op else [a]
+    return out
+
+
+def _rep(e):
+    """a sum / product with two syntactically equal operands (after flattening)"""
+    if e["op"] in ("plus", "times"):
+        ops = [repr(a) for a in _flat(e, e["op"])]
+        if len(ops) != len(set(ops)):
+            return True
+    return any(_rep(a) for a in e["args"])
+
+
+def features(P, W=None):
+    """deterministic syntactic features of the input and of the written text (known-finding signatures are
+    keyed on them; they play no part in any verdict)"""
     fs = set()
     if _bounded(P):
         fs.add("bounded")
@@ -459,6 +472,24 @@ def features(P):
         fs.add("name:total-cost")
     if any(te["e"]["c"] != upj.TRUE_E for te in P.get("timed_effects", [])):
         fs.add("conditional-timed-effect")
+    # sums / products with a repeated operand, by place
+    for a in P["actions"]:
+        effs = [te["e"] for te in a["effects"]] if a["kind"] == "dur" else a["effects"]
+        if any(_rep(c) for c in a["pre"]) or any(_rep(c["c"]) for c in a["conds"]) or any(_rep(e["c"]) for e in effs):
+            fs.add("repeated-operand:pre")
+        if any(_rep(e["v"]) for e in effs):
+            fs.add("repeated-operand:eff")
+    if any(_rep(g) for g in P["goals"]):
+        fs.add("repeated-operand:goal")
+    if any(_rep(c["c"]) for c in m["costs"]) or (m["default"]["op"] != "none" and _rep(m["default"])):
+        fs.add("repeated-operand:cost")
+    if m["expr"]["op"] != "none" and _rep(m["expr"]):
+        fs.add("repeated-operand:metric")
+    if W is not None:
+        if re.search(r"\(:metric (minimize|maximize) -?[0-9.]+\)", W["prob"]):
+            fs.add("metric-constant-in-text")
+        if re.search(r"\(at [0-9.]+\)", W["prob"]):
+            fs.add("empty-timed-effect-in-text")
     return sorted(fs)
 
 
@@ -556,19 +587,21 @@ def _steps(pl):
 
 def worker(job):
     cid, slice_, P, L, k, seed = job
-    rng = random.Random(seed)
     rec = {"cid": cid, "slice": slice_, "P": P, "skip": "", "safe": 0, "W": None, "reads": []}
     try:
         temporal = slice_ == "tmp"
         plans = []
+        def mk_plans():
+            # a fresh seeded generator per attempt: a retry after a time-out makes the same choices
+            r2 = random.Random(seed)
+            problem = upj.build(P)
+            if temporal:
+                return [("tt", s) for s in _tt_plans(P, problem, r2, k)], 0
+            pls, safe = _seq_plans(P, problem, r2, L, k)
+            return [("seq", _steps(pl)) for pl in pls], safe
+
         try:
-            with time_limit(60):
-                problem = upj.build(P)
-                if temporal:
-                    plans = [("tt", s) for s in _tt_plans(P, problem, rng, k)]
-                else:
-                    pls, rec["safe"] = _seq_plans(P, problem, rng, L, k)
-                    plans = [("seq", _steps(pl)) for pl in pls]
+            plans, rec["safe"] = call_limited(mk_plans, 120, 10)
         except ImplTimeout:
             rec["skip"] = "plans-timeout"
             return rec
@@ -636,15 +669,34 @@ def build_batches(recs, D):
     return rt, bis, index
 
 
-_READ_FEATS = ["metric-without-fluents", "name:pddl3-keyword", "name:temporal-keyword", "name:total-cost", "conditional-timed-effect"]
-RELEVANT = {
-    "applicability-A-inv-B-ok": ["bounded"],
-    "initial-state-validity-differs": ["bounded"],
-}
+_READ_FEATS = ["metric-constant-in-text", "empty-timed-effect-in-text", "name:pddl3-keyword", "name:temporal-keyword",
+               "name:total-cost", "conditional-timed-effect"]
+# behavioural clauses x the input features known findings are keyed on (prefix match on the clause)
+RELEVANT = [
+    ("applicability-A-inv-B-ok", ["bounded"]),
+    ("initial-state-validity-differs", ["bounded"]),
+    ("plan-validity-A-INVALID-inv", ["bounded"]),
+    ("plan-validity-A-INVALID-init", ["bounded"]),
+    ("plan-validity-A-INVALID-bnds", ["bounded"]),
+]
+RELEVANT_AI = [
+    ("action-cost-differs", ["repeated-operand:cost"]),
+    ("applicability-", ["repeated-operand:pre"]),
+    ("successor-differs", ["repeated-operand:eff"]),
+    ("goal-verdict-", ["repeated-operand:goal"]),
+    ("plan-validity-", ["repeated-operand:pre", "repeated-operand:eff", "repeated-operand:goal"]),
+    ("plan-metric-value-differs", ["repeated-operand:cost", "repeated-operand:metric"]),
+]
 
 
 def signature(reader, clause, feats, extra=""):
-    rel = _READ_FEATS if clause.startswith("up-reader-raises-") else RELEVANT.get(clause, [])
+    rel = []
+    if clause.startswith("up-reader-raises-"):
+        rel = _READ_FEATS
+    else:
+        for pre, fl in RELEVANT + (RELEVANT_AI if reader == "ai" else []):
+            if clause.startswith(pre):
+                rel = rel + fl
     keep = [f for f in feats if f in rel]
     return "%s|%s%s%s" % (reader, clause, ("|" + ",".join(keep)) if keep else "", ("|" + extra) if extra else "")
 
@@ -726,7 +778,7 @@ def run(ctx):
     fails, tallies, valid, unspec, nb = run_judges(ctx, rt, bis, index)
     for (cid, pi, clause, detail) in fails:
         rec, R = index[cid]
-        feats = features(rec["P"])
+        feats = features(rec["P"], rec["W"])
         reader = R["reader"] if R is not None else "writer"
         extra = ""
         if clause == "ai-reader-missing-requirement":
